@@ -294,7 +294,13 @@ class GenElem(Elem):
             if dotted(e) in ("np.pi", "numpy.pi"):
                 return TV(sp.pi)
         if isinstance(e, ast.Tuple):
-            return tuple(self.expr(z) for z in e.elts)
+            out = []
+            for z in e.elts:
+                if isinstance(z, ast.Starred):
+                    out.extend(self.expr(z.value))
+                else:
+                    out.append(self.expr(z))
+            return tuple(out)
         return super().expr(e)
 
     def call(self, e):
